@@ -746,7 +746,12 @@ func (m *Model) Contains(a, b any) (bool, Status) {
 			_, has := c.M[s]
 			return has, StOK
 		}
-		return false, m.why(StUnspec, "map contains non-string")
+		if b == nil {
+			return false, m.why(StUnspec, "map contains nil")
+		}
+		// contains tests the map's keys, and a value of one kind never equals a value of another:
+		// a number, boolean or array is not a key of a string-keyed map
+		return false, StOK
 	}
 	return false, m.why(StUnspec, "contains on a %T", a)
 }
